@@ -386,11 +386,8 @@ Proof.
     apply rename_loop_length in Hfn.
     rewrite Forall_forall. intros r Hin.
     destruct (mapM_In _ _ _ _ Hrs Hin) as [d [Hd Hr]].
-    inv_bind Hr as vs Hvs. inversion Hr; subst. split; simpl; auto.
-    assert (Hld : length d = length own) by (apply Nat.eqb_eq; auto).
-    destruct is_row.
-    + eapply match_by_name_length_same; eauto.
-    + inversion Hvs; subst. congruence.
+    inversion Hr; subst. split; simpl; auto.
+    assert (Hld : length d = length own) by (apply Nat.eqb_eq; auto). congruence.
 Qed.
 
 (* ---------- every reachable DataFrame ---------- *)
